@@ -25,7 +25,7 @@ ACTIONS = ["ClientRequest", "ClientService", "ServerService", "Deliver", "Settle
 
 
 def cfg_text(n, maxblocks, props=True):
-    s = ('SPECIFICATION Spec\nCONSTANTS\n  N = %d\n  Shapes = {"fixed", "stream", "empty"}\n  MaxBlocks = %d\n'
+    s = ('SPECIFICATION Spec\nCONSTANTS\n  N = %d\n  Shapes = {"fixed", "stream", "empty", "bodiless"}\n  MaxBlocks = %d\n'
          'CHECK_DEADLOCK FALSE\n' % (n, maxblocks))
     if props:
         s += ("INVARIANT TypeOK\nINVARIANT ResponsesPrefixOfRequests\nINVARIANT EveryResponseDelimited\n"
@@ -37,7 +37,7 @@ def cfg_text(n, maxblocks, props=True):
 
 def body_of(shape, k, variant):
     """the pieces the application produces for request k"""
-    if shape == "empty":
+    if shape in ("empty", "bodiless"):
         return []
     tag = b"r%d:" % k
     if shape == "fixed":
@@ -45,14 +45,37 @@ def body_of(shape, k, variant):
     return [tag + b"stream-" + b"s" * (5 + variant), b"HTTP/1.1 200 OK\r\n\r\n" + b"t" * (k + 1)]
 
 
-SHAPES = ("fixed", "stream", "empty")
+SHAPES = ("fixed", "stream", "empty", "bodiless")
 # the ways a WSGI application may hand over a response of each shape (PEP 3333; empty items are "not ready yet")
 STYLES = {
     "fixed": ("list", "generator", "empty-item-first", "one-item", "empty-item-between", "more-than-declared", "write-callable"),
     "stream": ("list", "generator", "empty-item-first", "one-item", "empty-item-between", "write-callable"),
     "empty": ("no-items", "length0-no-items", "empty-item", "length0-empty-item-list", "length0-empty-item-generator",
               "empty-item-list"),
+    # responses that have no body whatever their headers say (RFC 7230 3.3.3): 204, 304, any reply to HEAD;
+    # "length" = the application gives a Content-Length (for 304 / HEAD: that of the body it does not send)
+    "bodiless": ("204", "204-length0", "204-empty-item", "304", "304-length", "304-empty-item-generator",
+                 "head", "head-length", "head-empty-item"),
 }
+
+
+def style_of(shapes, variant, k):
+    """the hand-over style of the response to request k: rotates with the rank of the mix among the mixes having the same
+    shape at position k, which runs through 0 .. 4^(N-1)-1 >= number of styles"""
+    shape = shapes.get(k, "empty")
+    rank = 0
+    for j in sorted(shapes):
+        if j != k:
+            rank = rank * len(SHAPES) + SHAPES.index(shapes[j])
+    return STYLES[shape][(variant * 2 + rank) % len(STYLES[shape])]
+
+
+def method_of(style):
+    return "HEAD" if style.startswith("head") else "GET"
+
+
+def status_of(style):
+    return 204 if style.startswith("204") else 304 if style.startswith("304") else 200
 
 
 SEEN_STYLES = {}      # (shape, style) -> positions of the connection at which it was used
@@ -75,17 +98,25 @@ class App:
         self.calls.append(k)
         shape = self.shapes.get(k, "empty")
         pieces = body_of(shape, k, self.variant)
-        # rank of this mix among the mixes with the same shape at position k: runs through 0 .. 3^(N-1)-1 >= number of styles
-        rank = 0
-        for j in sorted(self.shapes):
-            if j != k:
-                rank = rank * 3 + SHAPES.index(self.shapes[j])
-        style = STYLES[shape][(self.variant * 2 + rank) % len(STYLES[shape])]
+        style = style_of(self.shapes, self.variant, k)
         self.styles[k] = style
         SEEN_STYLES.setdefault((shape, style), set()).add(k)
         headers = [("X-Id", str(k)), ("Content-Type", "application/octet-stream")]
         if shape == "fixed" or style.startswith("length0"):
             headers.append(("Content-Length", str(sum(len(p) for p in pieces))))
+        if shape == "bodiless":
+            if style.endswith("length0"):
+                headers.append(("Content-Length", "0"))
+            elif style.endswith("length"):
+                headers.append(("Content-Length", "17"))       # of the representation that is not sent
+            if environ.get("REQUEST_METHOD") != method_of(style):
+                headers.append(("X-Wrong-Method", str(environ.get("REQUEST_METHOD"))))
+            start_response({200: "200 OK", 204: "204 No Content", 304: "304 Not Modified"}[status_of(style)], headers)
+            if style.endswith("empty-item"):
+                return [b""]
+            if style.endswith("empty-item-generator"):
+                return (p for p in [b""])
+            return []
         write = start_response("200 OK", headers)
         if shape == "empty":
             items = [] if style.endswith("no-items") else [b""]
@@ -113,8 +144,11 @@ class App:
 
 # ---------------------------------------------------------------- independent reading of the response stream
 
-def frame_responses(data):
-    """[(delim, complete, end offset, body)] of the responses at the front of `data` (RFC 7230 3.3.3)"""
+def frame_responses(data, methods=()):
+    """[(delim, complete, end offset, body)] of the responses at the front of `data` (RFC 7230 3.3.3); methods[i] is the
+    method of the request that response i answers.  A reply to HEAD and a 1xx / 204 / 304 response end with the header
+    section; when such a response nevertheless announces chunked coding, its (empty) chunked body is read as part of
+    it - that is how this server frames them and what this client consumes."""
     out = []
     pos = 0
     n = len(data)
@@ -133,6 +167,7 @@ def frame_responses(data):
             k, _, v = ln.partition(b":")
             hs[k.strip().lower()] = v.strip()
         start = i + 4
+        bodiless = status in (204, 304) or 100 <= status < 200 or (len(out) < len(methods) and methods[len(out)] == "HEAD")
         if hs.get(b"transfer-encoding", b"").lower() == b"chunked":
             body = bytearray()
             p = start
@@ -160,8 +195,8 @@ def frame_responses(data):
             if not ok:
                 break
             pos = p
-        elif b"content-length" in hs or status in (204, 304) or 100 <= status < 200:
-            ln = int(hs.get(b"content-length", b"0"))
+        elif b"content-length" in hs or bodiless:
+            ln = 0 if bodiless else int(hs.get(b"content-length", b"0"))
             ok = start + ln <= n
             out.append(("length", ok, start + ln if ok else n, data[start:start + ln]))
             if not ok:
@@ -206,6 +241,7 @@ class System:
         self.sdelivered = 0                        # bytes of the outstanding request delivered to the server
         self.reqlen = 0
         self.taken = 0
+        self.methods = []
 
     # ---- helpers
     def _new_block(self, direction):
@@ -217,7 +253,7 @@ class System:
         return n
 
     def _frames(self):
-        return frame_responses(bytes(self.conn.s2c))
+        return frame_responses(bytes(self.conn.s2c), self.methods)
 
     def _complete(self):
         return sum(1 for f in self._frames() if f[1])
@@ -244,7 +280,8 @@ class System:
         with P.patched(self.net), P.quiet():
             if name == "ClientRequest":
                 self.sub += 1
-                self.patron.request(method="GET", path="/r%d" % self.sub)
+                self.methods.append(method_of(style_of(self.shapes, self.variant, self.sub)))
+                self.patron.request(method=self.methods[-1], path="/r%d" % self.sub)
             elif name == "ClientService":
                 self.patron.serviceAll()
                 self._after_client()
@@ -305,7 +342,7 @@ class System:
 
     # ---- projection onto the specification's variables
     def project(self):
-        sent = len(re.findall(rb"(?:^|\r\n\r\n)GET /r\d+ HTTP/1\.1\r\n", bytes(self.conn.c2s)))
+        sent = len(re.findall(rb"(?:^|\r\n\r\n)(?:GET|HEAD) /r\d+ HTTP/1\.1\r\n", bytes(self.conn.c2s)))
         served = len(self.app.calls)
         frames = self._frames()
         ncomplete = sum(1 for f in frames if f[1])
@@ -317,9 +354,11 @@ class System:
                 rid = 0
             m = re.match(r"^/r(\d+)$", str((r.get("request") or {}).get("path", "")))
             shape = "corrupt"
-            for s in ("fixed", "stream", "empty"):
-                if bytes(r["body"]) == b"".join(body_of(s, rid, self.variant)) and not r["errored"] and r["status"] == 200:
-                    shape = s if s == self.shapes.get(rid) else "corrupt"
+            want = self.shapes.get(rid)
+            if want is not None and bytes(r["body"]) == b"".join(body_of(want, rid, self.variant)) and not r["errored"] \
+                    and r["status"] == status_of(style_of(self.shapes, self.variant, rid)) and "x-wrong-method" not in r["headers"] \
+                    and (r.get("request") or {}).get("method") == method_of(style_of(self.shapes, self.variant, rid)):
+                shape = want
             responses.append({"id": rid, "req": int(m.group(1)) if m else 0, "shape": shape})
         c2s = "none"
         if self.blocks["c2s"]:
@@ -357,15 +396,15 @@ class System:
 
 
 def run_c31(ctx):
-    ctx.rule = ("KeepAlive.tla model checked over every mix of response shapes {fixed, stream, empty} for N requests and every "
+    ctx.rule = ("KeepAlive.tla model checked over every mix of response shapes {fixed, stream, empty, bodiless (204 / 304 / reply to HEAD)} for N requests and every "
                 "interleaving of submissions, client/server service passes, partial and whole deliveries; the dumped graph "
                 "walked on a real Patron and Valet over an in-memory connection: every (state, action) pair the "
                 "implementation can reach is performed and the projected state must be a successor allowed by the "
                 "specification; distinct = (state, action) pairs performed")
-    gn = ctx.pick(3, 4)
+    gn = 3
     dot = env.subdir("c31") + "/ka.dot"
     # one run checks the invariants and dumps the graph that is walked afterwards
-    res = tlc.run("KeepAlive", cfg_text(gn, 3), spec_dir=SPEC_DIR, dump_dot=dot, tag="c31g")
+    res = tlc.run("KeepAlive", cfg_text(gn, 3), spec_dir=SPEC_DIR, dump_dot=dot, tag="c31g", timeout=6 * 3600)
     ctx.add_model(res, "KeepAlive", {"N": gn, "MaxBlocks": 3})
     if not res.ok:
         ctx.diverge(Divergence("C31", "model", res.error_name or res.error, "KeepAlive", "specification property violated in the model",
@@ -373,8 +412,8 @@ def run_c31(ctx):
         return
     tlc.require_coverage(res, ACTIONS, "KeepAlive")
     if not ctx.quick:
-        res = tlc.run("KeepAlive", cfg_text(4, 5), spec_dir=SPEC_DIR, tag="c31mc")
-        ctx.add_model(res, "KeepAlive/deeper", {"N": 4, "MaxBlocks": 5})
+        res = tlc.run("KeepAlive", cfg_text(4, 4), spec_dir=SPEC_DIR, tag="c31mc", timeout=6 * 3600)
+        ctx.add_model(res, "KeepAlive/deeper", {"N": 4, "MaxBlocks": 4})
         if not res.ok:
             ctx.diverge(Divergence("C31", "model", res.error_name or res.error, "KeepAlive", "specification property violated in the model",
                                    steps=[{"action": a, "state": s} for a, s in res.trace]))
@@ -382,7 +421,7 @@ def run_c31(ctx):
     g = graph.load_dot(dot)
     total_pairs = done = steps = traces = 0
     complete = True
-    for variant in range(ctx.pick(2, 3)):
+    for variant in range(ctx.pick(2, 5)):
         w = Walker("C31", g, lambda init, v=variant: System(init, v), seed=ctx.seed + variant, max_len=ctx.pick(150, 300))
         w.run(ctx.pick(60000, 500000))
         for d in w.divs:
